@@ -17,7 +17,7 @@ REQUIRED_THEOREMS = ['Usid.C04.wf_implies_consistent', 'Usid.C04.model_trace_wf'
                      'Usid.C04.resume_recomputes_only_unmarked', 'Usid.C04.durable_marks',
                      'Usid.C04.durable_marks_model', 'Usid.C04.durable_marks_needs_results_flush',
                      'Usid.C04.model_trace_checkpointed', 'Usid.C04.checkpointed_implies_wf']
-RULE = ('[also: compute() called again ON THE SAME OBJECT after an ordinary error] [also: an older complete group of the same tool with other parameters next to the group at work] [also: the map function itself raising on its first / middle / last call, then compute(override=True) on that survivor] [also: interrupted groups in the LEGACY form - last_pixel attribute only, the status dataset is created by the resumed run] random (N, M, mask, batch, same-file/separate target, fresh/resumed); the clean run is traced through wrappers '
+RULE = ('[also: two or three groups without any progress record left by earlier creation-time interruptions] [also: compute() called again ON THE SAME OBJECT after an ordinary error] [also: an older complete group of the same tool with other parameters next to the group at work] [also: the map function itself raising on its first / middle / last call, then compute(override=True) on that survivor] [also: interrupted groups in the LEGACY form - last_pixel attribute only, the status dataset is created by the resumed run] random (N, M, mask, batch, same-file/separate target, fresh/resumed); the clean run is traced through wrappers '
         'around h5py file-modifying calls; then an interruption is injected before EVERY event index - once as a kill-like '
         'stop (graceful survivor after closing the file, kill survivor = the copy taken at the last flush) and once as an '
         'ORDINARY exception raised by that call, after which the library\'s own handlers run (exception survivor); all are checked for '
@@ -58,6 +58,10 @@ def generate(seed, tier):
         # an older, COMPLETE results group of the same tool with other parameters sits next to the one at work
         if rl.random() < 0.4:
             cases[-1]['older'] = True
+        # what two or three earlier attempts left behind that were interrupted while their results group was still being
+        # created: groups of the right name and parameters WITHOUT any progress record
+        if cases[-1]['fresh'] and not cases[-1].get('older') and rl.random() < 0.5:
+            cases[-1]['leftovers'] = rl.choice([2, 2, 3])
     # nearly complete large runs: only the last few crash points are explored
     for j in range({'quick': 1, 'thorough': 6, 'search': 2}[tier]):
         rng = derived_rng(seed, 'C04big', j)
@@ -86,6 +90,9 @@ def _setup(inp, d):
         if inp.get('older') and not inp['separate']:
             procs.make_prior_group(g, 'main', 'RowProc', {'a': 2}, n, mask=[1] * n, results=[float(x) for x in final],
                                    index=0, source=hm)
+        if inp.get('leftovers') and not inp['separate']:
+            for k_ in range(inp['leftovers']):
+                procs.make_prior_group(g, 'main', 'RowProc', {'a': 1}, n, mask=None, last_pixel=None, index=k_, source=hm)
         if prior is not None and not inp['separate']:
             procs.make_prior_group(g, 'main', 'RowProc', {'a': 1}, n, mask=None if inp.get('legacy') else mask,
                                    last_pixel=sum(mask) if inp.get('legacy') else None, results=prior, source=hm, index=idx)
@@ -94,6 +101,9 @@ def _setup(inp, d):
             g = f.create_group('T')
             if inp.get('older'):
                 procs.make_prior_group(g, 'main', 'RowProc', {'a': 2}, n, mask=[1] * n, results=[float(x) for x in final], index=0)
+            if inp.get('leftovers'):
+                for k_ in range(inp['leftovers']):
+                    procs.make_prior_group(g, 'main', 'RowProc', {'a': 1}, n, mask=None, last_pixel=None, index=k_)
             if prior is not None:
                 procs.make_prior_group(g, 'main', 'RowProc', {'a': 1}, n, mask=None if inp.get('legacy') else mask,
                                        last_pixel=sum(mask) if inp.get('legacy') else None, results=prior, index=idx)
